@@ -527,6 +527,13 @@ func runC01(c *Ctx) {
 
 	// ---- R7 empty <-> empty -------------------------------------------------------------------------------
 	emptyShortcutRule(c, "R7")
+	c01SmudgeOrder(c)
+	// the decision "this input already is a pointer" (cutoff comparisons, fill-until-full sniffing, verbatim
+	// pass-through) is C08's subject; a wrong verdict there makes clean emit a pointer that does not name the
+	// input, so those rules are shared
+	c.RulePrefix = "C08/"
+	runC08(c)
+	c.RulePrefix = ""
 	if sm != nil {
 		// Smudge returns (0, nil) for ptr.Size == 0 without reading anything
 		good := false
@@ -568,4 +575,135 @@ var c01Canaries = []Canary{
 	{Name: "read-despite-size-mismatch", ExpectKey: "C01.R6", Edits: []Edit{{File: "lfs/gitfilter_smudge.go", Find: "			os.RemoveAll(mediafile)\n			stat = nil", Repl: "			os.RemoveAll(mediafile)"}}},
 	{Name: "read-despite-queue-errors", ExpectKey: "C01.R6", Edits: []Edit{{File: "lfs/gitfilter_smudge.go", Find: "	if errs := q.Errors(); len(errs) > 0 {\n		return 0, errors.Wrap(errors.Join(errs...), tr.Tr.Get(\"Error downloading %s (%s)\", workingfile, ptr.Oid))\n	}\n\n	return f.readLocalFile(writer, ptr, mediafile, workingfile, nil)\n}\n\nfunc (f *GitFilter) downloadFileFallBack", Repl: "	if errs := q.Errors(); len(errs) > 1 {\n		return 0, errors.Wrap(errors.Join(errs...), tr.Tr.Get(\"Error downloading %s (%s)\", workingfile, ptr.Oid))\n	}\n\n	return f.readLocalFile(writer, ptr, mediafile, workingfile, nil)\n}\n\nfunc (f *GitFilter) downloadFileFallBack"}}},
 	{Name: "extension-failure-swallowed", ExpectKey: "C01.R1#pipeExtensions", Edits: []Edit{{File: "lfs/extension.go", Find: "		if err = ec.cmd.Wait(); err != nil {\n			if ec.err != nil {\n				errStr := ec.err.String()\n				err = errors.New(tr.Tr.Get(\"extension '%s' failed with: %s\", ec.result.name, errStr))\n			}\n			return\n		}", Repl: "		if err = ec.cmd.Wait(); err != nil && ec.err != nil {\n			errStr := ec.err.String()\n			err = errors.New(tr.Tr.Get(\"extension '%s' failed with: %s\", ec.result.name, errStr))\n			return\n		}"}}},
+}
+
+// c01SmudgeOrder (R9): the extensions recorded in a pointer were applied first-to-last by clean, so smudge has to
+// undo them last-to-first. Decided on the one construction site of the smudge pipe request: its extension list
+// must be the sorted list in reverse — built by appending element len-1-i for every index i of a range over the
+// sorted list, or by a library reversal of a copy. Any other way of building the list is not understood and is
+// reported as undecided (the order of two non-commuting extensions would silently change the bytes).
+func c01SmudgeOrder(c *Ctx) {
+	p := c.P
+	fn := p.Fn("lfs", "(*GitFilter).readLocalFile")
+	if fn == nil {
+		c.Missing("R9", "(*lfs.GitFilter).readLocalFile", "not found")
+		return
+	}
+	// the pipeRequest whose action is "smudge"
+	var extsVal ssa.Value
+	var at ssa.Instruction
+	for _, b := range fn.Blocks {
+		for _, in := range b.Instrs {
+			st, ok := in.(*ssa.Store)
+			if !ok {
+				continue
+			}
+			fa, ok := st.Addr.(*ssa.FieldAddr)
+			if !ok {
+				continue
+			}
+			if t, f := fieldAddrName(fa); t == "lfs.pipeRequest" && f == "extensions" {
+				extsVal, at = st.Val, in
+			}
+		}
+	}
+	if extsVal == nil {
+		c.Missing("R9", "pipeRequest.extensions in readLocalFile", "construction of the smudge pipe request not found")
+		return
+	}
+	sorted := func(v ssa.Value) bool {
+		cc, idx, ok := CallResult(Unwrap(v))
+		return ok && idx == 0 && CalleeName(cc.Common()) == "config.SortExtensions"
+	}
+	ok, why := false, "the extension list handed to the smudge pipe is built in a way the rule does not recognise as the reverse of the sorted list"
+	loops := Loops(fn)
+	for _, l := range p.LeavesNoFields(extsVal, func(v ssa.Value) FlowAct {
+		if cc, isCall := v.(*ssa.Call); isCall {
+			if bi, isB := cc.Call.Value.(*ssa.Builtin); isB && bi.Name() == "append" {
+				return Stop
+			}
+		}
+		return Descend
+	}) {
+		if sorted(l) {
+			ok, why = false, "the sorted extension list is handed to the smudge pipe as it is: the extensions are undone in the order they were applied instead of the reverse"
+			break
+		}
+		cc, isCall := l.(*ssa.Call)
+		if !isCall {
+			continue
+		}
+		bi, isB := cc.Call.Value.(*ssa.Builtin)
+		if !isB || bi.Name() != "append" {
+			continue
+		}
+		lp := LoopOf(loops, cc.Block())
+		if lp == nil || lp.Kind != "rangeindex" || !sorted(lp.RangedOperand()) {
+			why = "extensions are appended outside a range over the sorted list"
+			continue
+		}
+		els := variadicElems(cc.Call.Args[1])
+		if len(els) != 1 {
+			continue
+		}
+		ld, isLd := Unwrap(els[0]).(*ssa.UnOp)
+		if !isLd {
+			continue
+		}
+		ia, isIA := ld.X.(*ssa.IndexAddr)
+		if !isIA || !sorted(ia.X) {
+			why = "the appended element is not taken from the sorted list"
+			continue
+		}
+		// index == len(sorted) - 1 - i   (either association)
+		if isReverseIndex(ia.Index, ia.X) {
+			ok = true
+		} else {
+			why = "the appended element is not element len-1-i of the sorted list"
+		}
+	}
+	c.Check(ok, "R9", "smudge-undoes-extensions-in-reverse", p.InstrPos(at), "the smudge pipe gets the sorted extensions in reverse order", why+": two extensions that do not commute are undone in the wrong order and the smudged bytes differ from what was cleaned")
+}
+
+// isReverseIndex: idx is len(list)-1-i or len(list)-(i+1) or len(list)-i-1 for a loop index i.
+func isReverseIndex(idx, list ssa.Value) bool {
+	isLen := func(v ssa.Value) bool {
+		cc, ok := v.(*ssa.Call)
+		if !ok {
+			return false
+		}
+		bi, ok := cc.Call.Value.(*ssa.Builtin)
+		return ok && bi.Name() == "len" && Unwrap(cc.Call.Args[0]) == Unwrap(list)
+	}
+	isOne := func(v ssa.Value) bool { k, ok := ConstInt(v); return ok && k == 1 }
+	isIdx := func(v ssa.Value) bool {
+		_, isPhi := v.(*ssa.Phi)
+		if isPhi {
+			return true
+		}
+		if bo, ok := v.(*ssa.BinOp); ok && bo.Op == token.ADD { // rangeindex: i = φ + 1 forms
+			_, p1 := bo.X.(*ssa.Phi)
+			return p1 && isOne(bo.Y)
+		}
+		return false
+	}
+	bo, ok := idx.(*ssa.BinOp)
+	if !ok || bo.Op != token.SUB {
+		return false
+	}
+	// (len - 1) - i
+	if in, ok := bo.X.(*ssa.BinOp); ok && in.Op == token.SUB && isLen(in.X) && isOne(in.Y) && isIdx(bo.Y) {
+		return true
+	}
+	// (len - i) - 1
+	if in, ok := bo.X.(*ssa.BinOp); ok && in.Op == token.SUB && isLen(in.X) && isIdx(in.Y) && isOne(bo.Y) {
+		return true
+	}
+	// len - (i + 1)
+	if isLen(bo.X) {
+		if in, ok := bo.Y.(*ssa.BinOp); ok && in.Op == token.ADD && (isIdx(in.X) && isOne(in.Y) || isOne(in.X) && isIdx(in.Y)) {
+			return true
+		}
+	}
+	return false
 }
